@@ -175,6 +175,12 @@ func sizeSource(kind string, n int) (src []byte, name string) {
 			n = 2
 		}
 		return []byte("#" + strings.Repeat(".", n-2) + "\n"), name
+	case "code":
+		// a code section of about n bytes (two per statement, all on one line: few line feeds, many positions), then a failing operation
+		return []byte(strings.Repeat("print 1;", n/2) + "\nprint 2 + nil\n"), name
+	case "lines":
+		// n empty lines around a small program: far more line feeds than bytes of code
+		return []byte(strings.Repeat("\n", n/2) + "print 1\nprint 2 + nil\n" + strings.Repeat("\n", n-n/2)), name
 	case "offset":
 		// a failing operation n bytes into the source: its position needs a 1..3 byte varint
 		return []byte(strings.Repeat(" ", n) + "print 1\n\nprint 2 + nil\n"), name
